@@ -1068,6 +1068,26 @@ _WAVE10 = {
 }
 for _k, _t in _WAVE10.items():
     PROPERTIES[_k]['explanation'] = PROPERTIES[_k]['explanation'] + ' ' + _t
+_WAVE11 = {
+    'C02': "NUM6: behind the strtod call parse_number fails only because nothing was converted or under a test that the result is not finite.",
+    'C04': "NUM6 (see C02): every finite double is printed as a literal that has to parse again.",
+    'C07': "OWN11: where the utilities copy a whole node handed in by value over another one and free the emptied node alone, every payload "
+           "pointer of the copy lives on or is released by the caller.",
+    'C08': "OUT4 (the clause on a refused reallocate): with the result NULL every way out of ensure passes a release of the old block.",
+    'C09': "OUT4 has the same clause here.",
+    'C10': "TAB4: a literal needs no more readable bytes than it has (a literal that ends the buffer is a complete document).",
+    'C16': "TAB10: a bounded comparison with an operation name takes the terminator in (strncmp(op, \"add\", 3) is true of \"addendum\"). OWN11 (see C07).",
+}
+for _k, _t in _WAVE11.items():
+    PROPERTIES[_k]['explanation'] = PROPERTIES[_k]['explanation'] + ' ' + _t
+PROPERTIES['C12']['not_decided'] = list(PROPERTIES['C12']['not_decided']) + [
+    'rounding inside the comparison itself (a halved difference rounds for subnormal operands, seed s11_C12)']
+PROPERTIES['C02']['not_decided'] = list(PROPERTIES['C02']['not_decided']) + [
+    'a validating decoder added in front of the copy (which UTF-8 sequences it lets through, seed s11_C02)']
+PROPERTIES['C15']['not_decided'] = list(PROPERTIES['C15']['not_decided']) + [
+    'reference tokens delimited by a length handed in instead of by the next / or the terminator (seed s11_C15)']
+PROPERTIES['C19']['not_decided'] = list(PROPERTIES['C19']['not_decided']) + [
+    'sorters that keep runs in an array of their own (seed s11_C19)']
 for _k in ('C16', 'C17'):
     PROPERTIES[_k]['explanation'] += (" ESC5: a decoder of ~0/~1 that finds the next sequence with a search resumes the search behind the "
                                       "character it just decoded (RFC 6901 section 4: ~01 is ~1, not /); none on the pinned tree.")
